@@ -23,7 +23,10 @@ SEED_CHECKS = {'C01-a': ['C01', 'C12'], 'C12-a': ['C12'], 'C13-a': ['C13'], 'C05
                'C16-b': ['C16'], 'C17-d': ['C17'], 'C18-d': ['C18', 'C15'],
                'C01-e': ['C01', 'C13'], 'C02-e': ['C02'], 'C03-e': ['C03'], 'C04-e': ['C04'], 'C05-e': ['C05'], 'C06-e': ['C06'], 'C07-e': ['C07', 'C16'],
                'C08-e': ['C08', 'C03'], 'C09-e': ['C09', 'C02'], 'C10-e': ['C10'], 'C11-e': ['C11'], 'C12-e': ['C12'], 'C13-e': ['C13'], 'C15-e': ['C15', 'C18'],
-               'C16-c': ['C16'], 'C17-e': ['C17', 'C02'], 'C18-e': ['C18', 'C05']}
+               'C16-c': ['C16'], 'C17-e': ['C17', 'C02'], 'C18-e': ['C18', 'C05'],
+               'C01-f': ['C01', 'C16'], 'C02-f': ['C02', 'C08'], 'C03-f': ['C03'], 'C04-f': ['C04'], 'C05-f': ['C05'], 'C06-f': ['C06'], 'C07-f': ['C07'],
+               'C08-f': ['C08', 'C10'], 'C09-f': ['C09'], 'C10-f': ['C10'], 'C11-f': ['C11'], 'C12-f': ['C12'], 'C13-f': ['C13'], 'C15-f': ['C15'], 'C16-d': ['C16'],
+               'C17-f': ['C17'], 'C18-f': ['C18']}
 
 
 def run(pid):
